@@ -99,6 +99,9 @@ def check_doc(doc, acc, sub='dd'):
         return
     acc.count('evaluations')
     st, res = run_guarded(contexts.parse, doc.text, doc.ctx, False)
+    if docgen.bracket_under_nested_pair(doc.items):
+        acc.count('dd_known_c02_finding')   # recorded C02 finding: structure is not what was written
+        return
     if st != 'ok':
         acc.count('dd_not_parsed')          # C02 decides that
         return
